@@ -262,7 +262,8 @@ impl<F: Field> SparsePolynomial<F> {
                         .or_insert_with(|| *self_coeff * other_coeff);
                 }
             }
-            Self::from_coefficients_vec(result.into_iter().collect())
+            // Terms of equal degree may cancel: do not keep zero coefficients.
+            Self::from_coefficients_vec(result.into_iter().filter(|(_, c)| !c.is_zero()).collect())
         }
     }
 
